@@ -746,6 +746,34 @@ func Go(site string, f func()) {
 	s.startTask(t, f)
 }
 
+// AfterFunc replaces time.AfterFunc in instrumented code: the timer is a real
+// (fake-clock) timer, so Stop and Reset work, but f runs as a task under the
+// scheduler once the timer has fired.
+func AfterFunc(d time.Duration, f func()) *time.Timer {
+	s := current.Load()
+	if s == nil {
+		return time.AfterFunc(d, f)
+	}
+	p := s.self()
+	if p == nil {
+		return time.AfterFunc(d, f)
+	}
+	p.spawned++
+	t := s.newTask(fmt.Sprintf("%s/%d", p.ID, p.spawned), "time.AfterFunc", true)
+	var fired atomic.Bool
+	s.startTask(t, func() {
+		Block("time.AfterFunc", "timer", func() bool { return fired.Load() })
+		f()
+	})
+	return time.AfterFunc(d, func() {
+		fired.Store(true)
+		select {
+		case s.wakeCh <- struct{}{}:
+		default:
+		}
+	})
+}
+
 func (s *Sim) self() *Task {
 	g := goid()
 	if g == s.rootGoid {
